@@ -198,6 +198,8 @@ def scale_rows(A, v, copy=True):
         csr_scale_rows(M, N, A.indptr, A.indices, A.data, v)
     elif issparse(A) and A.format == 'bsr':
         R, C = A.blocksize
+        if not A.data.flags.c_contiguous:
+            A.data = np.ascontiguousarray(A.data)  # np.ravel must return a view
         bsr_scale_rows(int(M/R), int(N/C), R, C, A.indptr, A.indices,
                        np.ravel(A.data), v)
     elif issparse(A) and A.format == 'csc':
@@ -276,6 +278,8 @@ def scale_columns(A, v, copy=True):
         csr_scale_columns(M, N, A.indptr, A.indices, A.data, v)
     elif issparse(A) and A.format == 'bsr':
         R, C = A.blocksize
+        if not A.data.flags.c_contiguous:
+            A.data = np.ascontiguousarray(A.data)  # np.ravel must return a view
         bsr_scale_columns(int(M/R), int(N/C), R, C, A.indptr, A.indices,
                           np.ravel(A.data), v)
     elif issparse(A) and A.format == 'csc':
